@@ -460,6 +460,28 @@ func (x *Exec) atomicObj(cfg *Config, f *Frame, args []Val, pos token.Pos) (Term
 func (x *Exec) atomicWrite(cfg *Config, obj Term, isBool bool, nv Term, pos token.Pos) {
 	name, arr := x.atomicArr(cfg.st, isBool)
 	old := Select(arr, obj)
+	// option atomic-write-when <atomic> <cond> [; ...]: every write to that
+	// atomic by this function happens in a state satisfying cond
+	if x.c != nil && x.c.Options["atomic-write-when"] != "" && len(cfg.frames) > 0 {
+		for _, part := range strings.Split(x.c.Options["atomic-write-when"], ";") {
+			fs := strings.SplitN(strings.TrimSpace(part), " ", 2)
+			if len(fs) != 2 {
+				continue
+			}
+			env := x.entryEnv(cfg)
+			env.frame = cfg.frames[0]
+			env.old = cfg.old
+			target, err := ParseExpr(fs[0])
+			if err != nil {
+				unsupported("option atomic-write-when: %v", err)
+			}
+			cond, err := ParseExpr(fs[1])
+			if err != nil {
+				unsupported("option atomic-write-when: %v", err)
+			}
+			x.oblige(cfg, "atomic-write-when", fs[0]+" written only when "+fs[1], Implies(Eq(obj, x.specTerm(env, target)), x.specBool(env, cond)), nil, pos)
+		}
+	}
 	if !isBool {
 		x.oblige(cfg, "atomic-guarantee", "own atomic write satisfies the declared rely", x.atomicRelyTerm(cfg, old, nv), nil, pos)
 	}
